@@ -78,7 +78,8 @@ func gen(g *mon.Gen) {
 }
 
 func validException(b []byte) bool {
-	return len(b) == 9 && b[2] == 0 && b[3] == 0 && b[4] == 0 && b[5] == 3 && b[7]&0x80 != 0
+	// (code 0 is no Modbus exception code: a refusal tells the client why)
+	return len(b) == 9 && b[2] == 0 && b[3] == 0 && b[4] == 0 && b[5] == 3 && b[7]&0x80 != 0 && b[8] != 0
 }
 
 func classify(c *Case, r *mon.Rec, in []byte, flag bool) (n int, err error, ok bool) {
